@@ -81,6 +81,8 @@ func LiveMPD(a *asset, mpdName string, cfg *ResponseConfig, drmCfg *drm.DrmConfi
 		for i := 1; i < len(cfg.URLParts); i++ {
 			strBuf.WriteString("/")
 			switch {
+			case i >= cfg.URLContentIdx: // asset path and MPD name: copied as they are
+				strBuf.WriteString(cfg.URLParts[i])
 			case strings.HasPrefix(cfg.URLParts[i], "startrel_"):
 				strBuf.WriteString(fmt.Sprintf("start_%d", cfg.StartTimeS))
 			case strings.HasPrefix(cfg.URLParts[i], "stoprel_"):
